@@ -20,7 +20,7 @@ FAIL == -1
 \* the class of content a mutation target belongs to (targets are named "<class>:<object>:<where>")
 ClassOf(t) == CASE t \in {"sds:big2d:first", "sds:big2d:last", "sds:small:first", "sds:unl:last", "sds:chk:mid", "sds:cmp:mid", "sds:chkcmp:last",
                           "sds:t_int8:mid", "sds:t_uint8:big", "sds:t_int16:wrap", "sds:t_uint16:mid", "sds:t_int32:mid", "sds:t_uint32:mid",
-                          "sds:t_float32:mid", "sds:t_float64:last", "sds:t_char8:mid", "sds:huge:first", "sds:huge:mid", "sds:huge:last"} -> "sds"
+                          "sds:t_float32:mid", "sds:t_float64:last", "sds:t_float32:ulp", "sds:t_float64:ulp", "sds:t_char8:mid", "sds:huge:first", "sds:huge:mid", "sds:huge:last"} -> "sds"
                   [] t \in {"vdata:table1:first", "vdata:table1:last", "vdata:table2:mid"} -> "vdata"
                   [] t \in {"gr:img:first", "gr:img:last", "gr:img3:comp0", "gr:img3:comp1", "gr:img3:comp2"} -> "gr"
                   [] t \in {"sdattr:big2d:units"} -> "sdattr"
